@@ -1,18 +1,20 @@
 #!/bin/bash
 # tools/try_seed.sh <patch.diff> <ID> [<ID> ...]
-# Applies a seeded change to /repo, runs the quick checks of the given
-# properties (no evidence written), reverts the change. Prints one line per
-# check: <ID> DETECTED|missed|HARNESS-ERROR <first violation signature>
+# Runs the quick checks of the given properties against a scratch copy of
+# /repo's working tree with the seeded change applied (VERIF_REPO points the
+# checks at the copy; /repo itself is not touched, so background runs are not
+# disturbed). Equivalent to: git -C /repo apply <patch>; ./check <ID>;
+# git -C /repo checkout -- skactiveml.  The copy is removed afterwards.
+# Prints one line per check: <ID> DETECTED|missed|HARNESS-ERROR <signature>
 set -u
 PATCH="$(realpath "$1")"; shift
-cd /repo || exit 2
-if ! git diff --quiet -- skactiveml; then echo "repo working tree not clean"; exit 2; fi
-git apply --check "$PATCH" || { echo "patch does not apply"; exit 2; }
-git apply "$PATCH"
-trap 'git -C /repo checkout -- skactiveml' EXIT
+SCR="$(mktemp -d /tmp/seedrepo.XXXXXX)"
+trap 'rm -rf "$SCR"' EXIT
+rsync -a --exclude tests --exclude '*.pdf' /repo/skactiveml "$SCR/" || exit 2
+( cd "$SCR" && git init -q . >/dev/null 2>&1 && git apply "$PATCH" ) || { echo "patch does not apply"; exit 2; }
 cd /verif
 for ID in "$@"; do
-  OUT=$(./check "$ID" --tier quick --no-evidence ${SEED_ARGS:-} 2>&1)
+  OUT=$(VERIF_REPO="$SCR" ./check "$ID" --tier quick --no-evidence ${SEED_ARGS:-} 2>&1)
   RC=$?
   SIG=$(echo "$OUT" | grep -m1 "  violation:" | cut -c1-220)
   case $RC in
